@@ -2,7 +2,8 @@
 from genlib import *
 LEVEL = "proof"
 LEAN_MODULES = ["MpirProofs.Props.C03"]
-THEOREMS = ["Mpir.add_n_val"]
+THEOREMS = ["Mpir.add_n_val", "Mpir.sub_n_val", "Mpir.add_1_val", "Mpir.sub_1_val", "Mpir.add_val", "Mpir.sub_val",
+            "Mpir.neg_n_val", "Mpir.com_n_val", "Mpir.lshift_val", "Mpir.rshift_val", "Mpir.cmp_spec", "Mpir.zero_p_iff"]
 TRUSTED = ["hand-written limb-level models lean/Mpir/Model/Kernels.lean (tied by correspondence on every run)",
            "assembly kernels add_err*/sub_err* are not modelled"]
 ASSUMPTIONS = ["models mirror mpn/generic/{add_n,sub_n,lshift,rshift,com_n}.c and the mpir.h inline macros limb for limb; the tie is differential, not a translation"]
